@@ -149,6 +149,12 @@ INCLUDE_NETS = {
     "diamond": ({"d0.mac": '.include "d1.mac"\n.include "d2.mac"\n', "d1.mac": '.include "d3.mac"\n', "d2.mac": '.include "d3.mac"\n', "d3.mac": ".word 3\n"}, "d0.mac", "ok"),
     "chain-20": ({**{f"c{i}.mac": f'.include "c{i + 1}.mac"\n.byte {i}.\n' for i in range(20)}, "c20.mac": ".byte 20.\n"}, "c0.mac", "ok"),
     "self-in-repeat": ({"rp.mac": '.repeat 2 { .include "rp.mac" }\n'}, "rp.mac", "failed"),
+    # a statement of the included file fails after the file has defined labels
+    "fail-after-label": ({"f1.mac": "lbl: nop\njsr 5, lbl\n.word lbl\n"}, "f1.mac", "failed"),
+    "fail-range-after-label": ({"f2.mac": "L2: .word L2\n.byte 400\nM2: .word M2 - L2\n"}, "f2.mac", "failed"),
+    "fail-operand-count-after-label": ({"f3.mac": "L3:: nop\nmov #1\n"}, "f3.mac", "failed"),
+    "fail-nested": ({"f4.mac": 'L4: nop\n.include "f1.mac"\n.word L4\n', "f1.mac": "lbl: nop\njsr 5, lbl\n.word lbl\n"}, "f4.mac", "failed"),
+    "fail-user-error": ({"f5.mac": "L5: .word L5\n.error stop\nN5:\n"}, "f5.mac", "failed"),
     "self-lazy-path": ({"lz.mac": '.include "lz.ma"<CH>\nCH = 155\n'}, "lz.mac", "failed"),
 }
 
@@ -309,7 +315,8 @@ def obligations(tier, seed):
         stmt = head.replace("{E}", "{V1}").replace("{F}", "r2")
         add("block", CONTEXT_NOSELF + stmt + " { nop }" + TAIL)
     for stmt in (".repeat {V1}, {V2} { nop }", ".repeat { nop }", ".repeat {V1}", ".repeat {V1} { .repeat {V2} { nop } }", ".repeat 2 { .repeat 2 { .repeat 2 { .byte {V1} } } }",
-                 ".repeat {V1} { .end }", ".repeat 2 { .include \"nofile\" }", ".repeat 2 { .link {V1} }", ".repeat 2 { . = . + {V1} }", "{ nop }", ".repeat 2 { nop"):
+                 ".repeat {V1} { .end }", ".repeat 2 { .include \"nofile\" }", ".repeat 2 { .link {V1} }", ".repeat 2 { . = . + {V1} }", "{ nop }", ".repeat 2 { nop",
+                 "DEF {V1} { nop }", "DEF { nop }", "FWD {V1} { nop }", "DEF, {V1} { nop }", "DEF ({V1}) { nop }", "1$ { nop }", "nosuch {V1} { nop }", "DEF: { nop }"):
         add("block", CONTEXT_NOSELF + stmt + TAIL)
     # token-level oddities (concrete structure; one dummy symbolic so that the engine still explores): alone, in context, at end of file
     for t in TOKENS:
